@@ -695,7 +695,11 @@ func (w *worker) assume(c *Term) {
 
 // pick concretises a bit-vector term: the path continues with one feasible
 // value and one alternative per other feasible value is queued.
-func (w *worker) pick(t *Term) uint64 {
+func (w *worker) pick(t *Term) uint64 { return w.pickN(t, 0) }
+
+// pickN is pick for a term known to have exactly domain feasible values
+// (0 = unknown): the last alternative is not queued.
+func (w *worker) pickN(t *Term, domain int) uint64 {
 	if t.isConst() {
 		return t.k
 	}
@@ -751,7 +755,9 @@ func (w *worker) pick(t *Term) uint64 {
 			w.unknown("pick")
 		}
 	}
-	if len(excl)+1 > w.ex.cfg.MaxPicks {
+	if domain > 0 && len(excl)+1 >= domain {
+		// every value of the domain has been taken: nothing left to queue
+	} else if len(excl)+1 > w.ex.cfg.MaxPicks {
 		w.ex.inconclusive(fmt.Sprintf("more than %d feasible values for a symbolic size/index @ %s", w.ex.cfg.MaxPicks, w.where()))
 	} else {
 		np := make([]dec, len(w.taken)+1)
